@@ -259,3 +259,26 @@ Proof.
   cbv zeta. split; [eexists; split; vm_compute; reflexivity|]. split; [eexists; split; vm_compute; reflexivity|].
   vm_compute. discriminate.
 Qed.
+
+Definition spec_pairs (l : list (leaf * leaf * strategy)) : list (string * string * strategy) :=
+  map (fun x => (l_name (fst (fst x)), l_name (snd (fst x)), snd x)) l.
+
+(* ex10 (K_map_tag_underscore): the declarative reading maps Title <- User_Name and
+   Nick_name <- Alpha through their tags; the plan has only the snake_case tag and ID *)
+Lemma ex10_tag_underscore :
+  spec_pairs (pairs_to (ps_env ex10) (ps_fuel ex10) (job_of ex10 "T"))
+  = [("Title", "User_Name", SAssign); ("Nick_name", "Alpha", SAssign); ("ZipCode", "Beta", SAssign); ("ID", "ID", SAssign)]
+  /\ option_map (fun a => summary (a_to a)) (analyse id_oracle (job_of ex10 "T"))
+     = Some [("ZipCode", "Beta", SAssign, []); ("ID", "ID", SAssign, [])]
+  /\ pair_guard (ps_env ex10) (ps_fuel ex10) (ps_jobs ex10) = false.
+Proof. vm_compute. repeat split; reflexivity. Qed.
+
+(* ex11 (K_map_embedded_nonstruct): the embedded common.Level is a field named Level;
+   the plan does not contain it *)
+Lemma ex11_embedded_nonstruct :
+  spec_pairs (pairs_to (ps_env ex11) (ps_fuel ex11) (job_of ex11 "T"))
+  = [("Level", "Level", SConv (TNamed (POth "common") "Level") (TBasic BInt16)); ("ID", "ID", SAssign)]
+  /\ option_map (fun a => summary (a_to a)) (analyse id_oracle (job_of ex11 "T"))
+     = Some [("ID", "ID", SAssign, [])]
+  /\ pair_guard (ps_env ex11) (ps_fuel ex11) (ps_jobs ex11) = false.
+Proof. vm_compute. repeat split; reflexivity. Qed.
